@@ -2898,3 +2898,95 @@ func ruleSubstrEnd(p *Prog, r *Result) {
 	}
 	r.floor("slices of the value in the substr bodies", n, 2)
 }
+
+// ---------------- TWINERR ----------------
+
+func init() {
+	register("TWINERR", "row and batch twins treat a failing comparison alike: for every operator whose row and batch evaluators call the comparison helpers (exec*Compare), the ways their errors are handled - returned as an error, or absorbed into a result (`not in the list`) - are the same sets in both twins (an element that cannot be compared with the left operand makes `x in f(..)` false in one mode and an operand-type error in the other)", ruleTwinErr)
+}
+
+func ruleTwinErr(p *Prog, r *Result) {
+	row := p.MethodByName("BinaryOpExpr", "Execute")
+	bat := p.MethodByName("BinaryOpExpr", "ExecuteBatch")
+	if row == nil || bat == nil {
+		r.undecided("anchor: (*BinaryOpExpr).Execute/ExecuteBatch not found")
+		return
+	}
+	rt, err1 := p.dispatchTable(row)
+	bt, err2 := p.dispatchTable(bat)
+	if err1 != nil || err2 != nil {
+		r.undecided("dispatch table extraction failed: %v %v", err1, err2)
+		return
+	}
+	handling := func(fn *ssa.Function) map[string]bool {
+		out := map[string]bool{}
+		for _, f := range p.staticClosure(fn, 1, nil) {
+			if f != fn && (f.Signature.Recv() == nil || typeName(deref(f.Signature.Recv().Type())) != "BinaryOpExpr") {
+				continue
+			}
+			allInstrs(f, func(in ssa.Instruction) {
+				c, ok := in.(*ssa.Call)
+				if !ok {
+					return
+				}
+				g := c.Call.StaticCallee()
+				if g == nil || !p.InPkg(g) || g.Signature.Recv() != nil || !strings.Contains(g.Name(), "Compare") {
+					return
+				}
+				e := extractOf(c, 1)
+				if e == nil {
+					out["ignored"] = true
+					return
+				}
+				vals := map[ssa.Value]bool{e: true}
+				for _, ref := range *e.Referrers() {
+					if ph, ok := ref.(*ssa.Phi); ok {
+						vals[ph] = true
+					}
+					if _, isRet := ref.(*ssa.Return); isRet {
+						out["returned"] = true // `return helper(..)`: handed on as it is
+					}
+				}
+				for _, b := range f.Blocks {
+					fi := ifOf(b)
+					if fi == nil {
+						continue
+					}
+					for si := range b.Succs {
+						a, ok := edgeAtom(b, si)
+						if !ok || a.Op != token.NEQ || !vals[a.X] || !isNilConst(a.Y) {
+							continue
+						}
+						sc := b.Succs[si]
+						if ret := retOf(sc); ret != nil && len(ret.Results) > 0 {
+							if isNilConst(retVal(ret, len(ret.Results)-1)) {
+								out["absorbed"] = true
+							} else {
+								out["returned"] = true
+							}
+						} else {
+							out["absorbed"] = true
+						}
+					}
+				}
+			})
+		}
+		return out
+	}
+	n := 0
+	for _, name := range sortedKeys(rt) {
+		for _, cls := range []string{"str", "num"} {
+			re, be := rt[name][cls], bt[name][cls]
+			if re == nil || be == nil {
+				continue
+			}
+			hr, hb := handling(re.Callee), handling(be.Callee)
+			if len(hr) == 0 && len(hb) == 0 {
+				continue
+			}
+			n++
+			r.add(fmt.Sprint(keysOf(hr)) == fmt.Sprint(keysOf(hb)), fmt.Sprintf("%s|%s", name, cls), p.Pos(be.Callee.Pos()), fmt.Sprintf("errors of the comparison helpers: row twin %s %v, batch twin %s %v", re.Callee.Name(), keysOf(hr), be.Callee.Name(), keysOf(hb)))
+		}
+	}
+	r.floor("operator twins calling comparison helpers", n, 4)
+}
